@@ -14,7 +14,7 @@ pub struct G {
     pub kf_pct: usize,
 }
 
-const FIELDS: &[&str] = &["f", "g", "h", "n", "m", "s.t", "s.u", "arr", "o"];
+const FIELDS: &[&str] = &["f", "g", "h", "n", "m", "s.t", "s.u", "arr", "o", "arr[1]", "lst[0]"];
 const IDENTS: &[&str] = &["A", "B", "C", "D", "sel", "android", "order", "nothing", "allow", "offline", "notable", "orbit"];
 const ALPHA: &[char] = &['a', 'b', 'A', 'B', 'c', '1', ' ', '.', 'é', 'É', '😀', 'ß', '-'];
 const ALPHA_SMALL: &[char] = &['a', 'b', 'A', 'B'];
@@ -93,8 +93,11 @@ impl G {
             "regex" => {
                 let mut atoms = vec![];
                 let n = 1 + self.r.below(3);
-                if self.r.chance(1, 6) {
+                if self.r.chance(1, 5) {
                     atoms.push(json!({"t":"bol"}));
+                    if self.r.chance(1, 2) {
+                        atoms.push(json!({"t":"star"}));
+                    }
                 }
                 for _ in 0..n {
                     atoms.push(match self.r.below(8) {
@@ -105,7 +108,10 @@ impl G {
                         _ => json!({"t":"c","c": *self.r.pick(ALPHA_SMALL) as u32}),
                     });
                 }
-                if self.r.chance(1, 6) {
+                if self.r.chance(1, 5) {
+                    if self.r.chance(1, 2) {
+                        atoms.push(json!({"t":"star"}));
+                    }
                     atoms.push(json!({"t":"eol"}));
                 }
                 json!({"t":"pat","k":"regex","ic":ic,"a":atoms})
@@ -130,6 +136,17 @@ impl G {
 
     /// a string that relates to pattern p in an interesting way
     pub fn near(&mut self, p: &J) -> String {
+        let anchored_star = p["k"] == "regex" && p["a"].as_array().map(|a| {
+            (a.len() >= 2 && a[0]["t"] == "bol" && a[1]["t"] == "star")
+                || (a.len() >= 2 && a[a.len() - 1]["t"] == "eol" && a[a.len() - 2]["t"] == "star")
+        }).unwrap_or(false);
+        if anchored_star && self.r.chance(1, 2) {
+            // the text of the literal atoms with a line break before / after them: ".*" does not
+            // cross it, so ^.*x differs from x exactly here
+            let lits: String = p["a"].as_array().unwrap().iter()
+                .filter(|a| a["t"] == "c").filter_map(|a| char::from_u32(a["c"].as_u64().unwrap_or(97) as u32)).collect();
+            return match self.r.below(3) { 0 => format!("q\n{}", lits), 1 => format!("{}\nq", lits), _ => format!("q\n{}\nq", lits) };
+        }
         if p["k"] == "regex" || p["k"] == "any" {
             let mut s = String::new();
             if let Some(atoms) = p["a"].as_array() {
@@ -148,6 +165,10 @@ impl G {
         self.decorate(a)
     }
     fn decorate(&mut self, a: String) -> String {
+        let a = if self.r.chance(1, 12) {
+            // a line break before / after: '.' does not cross it, ^ and $ are text anchors
+            match self.r.below(3) { 0 => format!("x\n{}", a), 1 => format!("{}\ny", a), _ => format!("b\n{}\na", a) }
+        } else { a };
         let a = match self.r.below(4) {
             0 => a.to_uppercase(),
             1 => a.to_lowercase(),
@@ -452,8 +473,82 @@ impl G {
             let t = atoms.into_iter().reduce(|l, r| json!({"t":"and","l":l,"r":r})).unwrap();
             terms.push(if t["t"] == "and" { json!({"t":"par","e":t}) } else { t });
         }
-        let cond = terms.into_iter().reduce(|l, r| json!({"t":"or","l":l,"r":r})).unwrap();
+        let mut cond = terms.into_iter().reduce(|l, r| json!({"t":"or","l":l,"r":r})).unwrap();
+        if !self.positive && self.r.chance(1, 3) {
+            cond = json!({"t":"not","e":{"t":"par","e":cond}});
+        }
         json!({"cond":cond,"ids":ids})
+    }
+
+    /// identifiers that are nested blocks on ONE field with different inner keys (plus a plain one),
+    /// combined by and / or chains: shake merges such blocks; documents hold the field as an object
+    /// or as an array of objects each satisfying some of the blocks
+    pub fn nested_merge_source(&mut self) -> J {
+        let inner = ["x", "y", "z"];
+        let nid = 2 + self.r.below(2);
+        let mut ids = vec![];
+        let mut names = vec![];
+        for i in 0..nid {
+            let name = IDENTS[i].to_string();
+            let k = inner[i % 3];
+            let v = match self.r.below(6) {
+                0 => self.pattern(false),
+                1 => json!({"t":"pat","k":"any","ic":false,"a":[]}),
+                _ => json!({"t":"pat","k":"exact","ic":false,"a":cps("v")}),
+            };
+            let mut es = vec![json!({"m":"none","c":0,"f":cps(k),"v":v})];
+            if self.r.chance(1, 4) {
+                es.push(json!({"m":"none","c":0,"f":cps(inner[(i + 1) % 3]),"v":{"t":"pat","k":"any","ic":false,"a":[]}}));
+            }
+            ids.push(json!([cps(&name), {"t":"map","es":[{"m":"none","c":0,"f":cps("p"),"v":{"t":"map","es":es}}]}]));
+            names.push(name);
+        }
+        let plain = IDENTS[nid].to_string();
+        ids.push(json!([cps(&plain), {"t":"map","es":[{"m":"none","c":0,"f":cps("q"),"v":{"t":"pat","k":"exact","ic":false,"a":cps("v")}}]}]));
+        names.push(plain);
+        let op = if self.r.chance(2, 3) { "and" } else { "or" };
+        let mut order: Vec<String> = names.clone();
+        for i in (1..order.len()).rev() {
+            let j = self.r.below(i + 1);
+            order.swap(i, j);
+        }
+        let mut cond = order.iter().map(|n| json!({"t":"id","n":cps(n)})).reduce(|l, r| json!({"t":op,"l":l,"r":r})).unwrap();
+        if !self.positive && self.r.chance(1, 4) {
+            cond = json!({"t":"not","e":{"t":"par","e":cond}});
+        }
+        json!({"cond":cond,"ids":ids})
+    }
+
+    pub fn nested_merge_doc(&mut self) -> J {
+        let inner = ["x", "y", "z"];
+        let mut elem = |g: &mut G| {
+            let mut kv = vec![];
+            for k in inner {
+                match g.r.below(4) {
+                    0 | 1 => kv.push((k.to_string(), s_node("v"))),
+                    2 => kv.push((k.to_string(), s_node("w"))),
+                    _ => {}
+                }
+            }
+            obj(kv)
+        };
+        let p = match self.r.below(5) {
+            0 => elem(self),
+            1 => s_node("v"),
+            _ => {
+                let n = 1 + self.r.below(3);
+                let mut vs: Vec<J> = (0..n).map(|_| elem(self)).collect();
+                if self.r.chance(1, 5) {
+                    vs.push(s_node("v"));
+                }
+                json!({"t":"A","vs":vs})
+            }
+        };
+        let mut kv = vec![("p".to_string(), p)];
+        if self.r.chance(3, 4) {
+            kv.push(("q".into(), s_node(if self.r.chance(2, 3) { "v" } else { "w" })));
+        }
+        obj(kv)
     }
 
     pub fn source(&mut self, depth: usize) -> J {
@@ -697,6 +792,31 @@ fn insert_path(root: &mut Vec<(String, J)>, path: &str, v: J) {
         Some((h, r)) => (h, Some(r)),
         None => (path, None),
     };
+    // an indexed segment name[i]: the member is an array that holds the value at position i; when
+    // the value is itself an array marked "short" the array ends just before i (index out of range)
+    if head.ends_with(']') && head.contains('[') {
+        let p = head.find('[').unwrap();
+        let name = &head[..p];
+        let idx: usize = head[p + 1..head.len() - 1].parse().unwrap_or(0);
+        if root.iter().any(|(k, _)| k == name) {
+            return;
+        }
+        let inner = match rest {
+            None => v,
+            Some(r) => {
+                let mut kv = vec![];
+                insert_path(&mut kv, r, v);
+                obj(kv)
+            }
+        };
+        let short = inner["t"] == "S" && str_of(&inner["s"]).map(|t| t.len() % 4 == 3).unwrap_or(false);
+        let mut elems: Vec<J> = (0..idx).map(|i| s_node(&format!("pad{}", i))).collect();
+        if !short {
+            elems.push(inner);
+        }
+        root.push((name.to_string(), json!({"t":"A","vs":elems})));
+        return;
+    }
     match rest {
         None => {
             if !root.iter().any(|(k, _)| k == head) {
@@ -1306,7 +1426,61 @@ fn respace(g: &mut G, text: &str) -> String {
     out
 }
 
+/// C03: sizes at which indices, bitmaps and synthetic keys change representation: a matrix of more
+/// than 128 columns (the column key becomes a multi-byte character), batches of 63 / 64 / 65 / 70
+/// members (slow_aho switches from a bitmap to a set at 64)
+fn big_case(g: &mut G, i: usize) -> J {
+    let exact = |t: &str| json!({"t":"pat","k":"exact","ic":false,"a":cps(t)});
+    if i % 2 == 0 {
+        let nf = 129 + g.r.below(8);
+        let mut ids = vec![];
+        let mut terms: Vec<String> = vec![];
+        for k in 0..nf {
+            let name = format!("I{}", k);
+            ids.push(json!([cps(&name), {"t":"map","es":[{"m":"none","c":0,"f":cps(&format!("f{}", k)),"v":exact("x")}]}]));
+            terms.push(name);
+        }
+        // a second predicate on the first field, so that the field is counted twice
+        // (a NUMBER, so that shake does not merge it with the string search on f0)
+        ids.push(json!([cps("J"), {"t":"map","es":[{"m":"none","c":0,"f":cps("f0"),"v":{"t":"num","n":int_node("5")}}]}]));
+        terms.push("J".to_string());
+        // the condition as TEXT: a left-deep tree of 130 nodes exceeds the JSON nesting limit
+        let src = json!({"cond":{"t":"text","s":cps(&terms.join(" or "))},"ids":ids});
+        let docs = vec![
+            obj(vec![(format!("f{}", nf - 1), s_node("x"))]),
+            obj(vec![(format!("f{}", 128), s_node("x")), ("f0".into(), s_node("z"))]),
+            obj(vec![("f0".into(), i_node("5"))]),
+            obj(vec![("f0".into(), s_node("x"))]),
+            obj(vec![("f3".into(), s_node("q"))]),
+            obj(vec![]),
+        ];
+        json!({"topic":"big","oracle":true,"wt":false,"bodies_ok":true,"src":src,"docs":docs,
+               "plan":{"tri":false,"sws":[[], [true,true,true,true], [false,false,false,true], [true,false,false,true]]}})
+    } else {
+        let n = *g.r.pick(&[63usize, 64, 65, 70]);
+        let vs: Vec<J> = (0..n).map(|k| json!({"t":"pat","k":"contains","ic":false,"a":cps(&format!("m{}z", k))})).collect();
+        let (m, c) = match g.r.below(3) { 0 => ("all", 0), 1 => ("of", n), _ => ("of", n - 1) };
+        let src = json!({"cond":{"t":"id","n":cps("A")},"ids":[[cps("A"),{"t":"map","es":[{"m":m,"c":c,"f":cps("f"),"v":{"t":"list","vs":vs}}]}]]});
+        let all: String = (0..n).map(|k| format!("m{}z", k)).collect();
+        let but_last: String = (0..n - 1).map(|k| format!("m{}z", k)).collect();
+        let but_two: String = (0..n - 2).map(|k| format!("m{}z", k)).collect();
+        let docs = vec![obj(vec![("f".into(), s_node(&all))]), obj(vec![("f".into(), s_node(&but_last))]),
+                        obj(vec![("f".into(), s_node(&but_two))]), obj(vec![("f".into(), s_node("m0z"))]), obj(vec![])];
+        json!({"topic":"big","oracle":true,"wt":true,"src":src,"docs":docs,
+               "plan":{"tri":false,"sws":[[], [true,true,true,true]]}})
+    }
+}
+
 pub fn gen_cases(topic: &str, seed: u64, n: usize, path: &str) -> Result<(), String> {
+    if topic == "big" {
+        let mut g = G::new(seed ^ 0xB16);
+        let mut w = BufWriter::new(File::create(path).map_err(|e| e.to_string())?);
+        for i in 0..n {
+            writeln!(w, "{}", big_case(&mut g, i)).map_err(|e| e.to_string())?;
+        }
+        w.flush().map_err(|e| e.to_string())?;
+        return Ok(());
+    }
     if topic == "cond" {
         let mut g = G::new(seed ^ 0xC05D);
         let mut w = BufWriter::new(File::create(path).map_err(|e| e.to_string())?);
@@ -1362,12 +1536,13 @@ pub fn gen_cases(topic: &str, seed: u64, n: usize, path: &str) -> Result<(), Str
     for _ in 0..n {
         let mode = g.r.below(10);
         g.positive = matches!(topic, "opt" | "perm") && mode < 4;
-        let matrixy = matches!(topic, "opt" | "adv" | "pure" | "find") && g.r.chance(1, 4);
-        let src = if matrixy { g.matrix_source() } else { g.source(3) };
+        let shape = if topic == "nm" { 2 } else if matches!(topic, "opt" | "adv" | "pure" | "find" | "lang" | "perm") { g.r.below(8) } else { 9 };
+        let topic = if topic == "nm" { "opt" } else { topic };
+        let src = match shape { 0 | 1 => g.matrix_source(), 2 => g.nested_merge_source(), _ => g.source(3) };
         let nd = 3 + g.r.below(4);
         let complete = matches!(topic, "opt" | "perm") && mode >= 4 && mode < 9;
         let docs: Vec<J> = (0..nd)
-            .map(|i| if complete && i > 0 { g.doc_complete(&src) } else { g.doc_for(&src) })
+            .map(|i| if shape == 2 { g.nested_merge_doc() } else if complete && i > 0 { g.doc_complete(&src) } else { g.doc_for(&src) })
             .collect();
         let all17 = J::Array(crate::run::all_sws());
         let some_sws = {
@@ -1385,11 +1560,38 @@ pub fn gen_cases(topic: &str, seed: u64, n: usize, path: &str) -> Result<(), Str
             "find" => {
                 let mut all_docs = vec![];
                 let mut dcls = vec![];
+                // root-level names that only occur as LATER segments of dotted keys (for `s.t`: `t`):
+                // no predicate addresses them on the root
+                let mut hints: std::collections::BTreeMap<String, Vec<J>> = Default::default();
+                for pair in src["ids"].as_array().unwrap_or(&vec![]) {
+                    collect_hints(&pair[1], "", &mut hints);
+                }
+                collect_cond_fields(&src["cond"], &mut hints);
+                let firsts: std::collections::HashSet<String> = hints.keys().map(|k| k.split(['.', '[']).next().unwrap_or("").to_string()).collect();
+                let mut later: Vec<String> = vec![];
+                for k in hints.keys() {
+                    for seg in k.split('.').skip(1) {
+                        let name = seg.split('[').next().unwrap_or("").to_string();
+                        if !name.is_empty() && !firsts.contains(&name) && !later.contains(&name) {
+                            later.push(name);
+                        }
+                    }
+                }
                 for (ci, d) in docs.iter().enumerate() {
                     all_docs.push(d.clone());
                     dcls.push(ci);
                     for _ in 0..2 {
-                        all_docs.push(perturb(&mut g, d, 0));
+                        let mut pd = perturb(&mut g, d, 0);
+                        if !later.is_empty() && g.r.chance(1, 2) {
+                            let name = g.r.pick(&later).clone();
+                            let val = match g.r.below(3) { 0 => s_node("x"), 1 => s_node(&g.word(3, true)), _ => i_node("1") };
+                            if let Some(kv) = pd.get_mut("kv").and_then(|k| k.as_array_mut()) {
+                                if !kv.iter().any(|p| str_of(&p[0]).map(|x| x == name).unwrap_or(false)) {
+                                    kv.push(json!([cps(&name), val]));
+                                }
+                            }
+                        }
+                        all_docs.push(pd);
                         dcls.push(ci);
                     }
                 }
@@ -1500,7 +1702,9 @@ pub fn gen_cases(topic: &str, seed: u64, n: usize, path: &str) -> Result<(), Str
                     let nf = if form >= 3 { k } else { 1 };
                     for i in 0..nf {
                         let hints: Vec<J> = if form >= 3 { vec![vs[i].clone()] } else { vs.clone() };
-                        if g.r.chance(1, 8) {
+                        // of(X, 0) and its explicit form with `not` differ when SOME entries are
+                        // missing (not missing = false): for n = 0 every field is present
+                        if g.r.chance(1, 8) && !(mode == "of" && n == 0 && form >= 3) {
                             continue;
                         }
                         let v = if class == "str" && form < 3 && g.r.chance(1, 2) {
@@ -1583,13 +1787,19 @@ pub fn gen_cases(topic: &str, seed: u64, n: usize, path: &str) -> Result<(), Str
                 let ctext = if float { g.flt_text() } else if g.r.chance(1, 2) { g.int_text() } else { format!("{}", g.r.next() as i64) };
                 let cn = if float { flt_node(&ctext) } else { int_node(&ctext) };
                 let op = *g.r.pick(&["eq", "gt", "ge", "lt", "le"]);
-                let form = g.r.below(5);
+                let form = g.r.below(6);
                 let cast = if float { "flt" } else { "int" };
                 let nonneg = !ctext.starts_with('-');
                 let src = match form {
                     0 => json!({"cond":{"t":"id","n":cps("A")},"ids":[[cps("A"),{"t":"map","es":[{"m":"none","c":0,"f":cps("f"),"v":{"t":"cmp","op":op,"n":cn}}]}]]}),
                     1 => json!({"cond":{"t":"id","n":cps("A")},"ids":[[cps("A"),{"t":"map","es":[{"m":"none","c":0,"f":cps("f"),"v":{"t":"num","n":cn}}]}]]}),
                     2 => json!({"cond":{"t":"id","n":cps("A")},"ids":[[cps("A"),{"t":"map","es":[{"m":cast,"c":0,"f":cps("f"),"v":{"t":"cmp","op":op,"n":cn}}]}]]}),
+                    5 => {
+                        // the comparison as a member of a list (the list branch of the parser)
+                        let other = if float { json!({"t":"cmp","op":"lt","n":flt_node("-1024.5")}) } else { json!({"t":"cmp","op":"lt","n":int_node("-9223372036854775807")}) };
+                        let m = if g.r.chance(1, 3) { cast } else { "none" };
+                        json!({"cond":{"t":"id","n":cps("A")},"ids":[[cps("A"),{"t":"map","es":[{"m":m,"c":0,"f":cps("f"),"v":{"t":"list","vs":[other, {"t":"cmp","op":op,"n":cn}]}}]}]]})
+                    }
                     3 if nonneg => json!({"cond":{"t":"cmp","op":op,"l":{"t":"cast","k":cast,"f":cps("f")},"r":{"t":"const","n":cn}},
                                           "ids":[[cps("A"),{"t":"map","es":[{"m":"none","c":0,"f":cps("g"),"v":{"t":"pat","k":"any","ic":false,"a":[]}}]}]]}),
                     _ => json!({"cond":{"t":"not","e":{"t":"id","n":cps("A")}},"ids":[[cps("A"),{"t":"map","es":[{"m":"none","c":0,"f":cps("f"),"v":{"t":"cmp","op":op,"n":cn}}]}]]}),
